@@ -1,12 +1,14 @@
-(* Properties_C04.v — perft(d) counts the leaves of the generated move tree; the position is left unchanged.
-   Proved for EVERY position and depth, with no hypothesis: perft returns the object exactly as it was
-   (whole state, history included); perft(0) = 1; perft(d+1) = sum over the generated moves m of perft(d)
-   after makemove(m) (the depth-1 shortcut count_moves agrees with the recurrence).
-   STATUS: PARTIAL with respect to the property: "generated moves = the legal moves of the rules" is C01
-   (decided by correspondence); agreement with the independent rules implementation [spec_perft] and the
-   published tables is checked by the correspondence.  Statements only. *)
+(* Properties_C04.v — perft(d) counts the legal move sequences of the rules; the position is left unchanged.
+   STATUS: FULL (for the model M).  Proved with no hypothesis: perft returns the object exactly as it was (whole
+   state, history included); perft(0) = 1; perft(d+1) = sum over the generated moves m of perft(d) after makemove(m).
+   Proved on the property's domain (wf, rooks_ok, legal-consistent, either mode), for every depth:
+       fst (perft K d p) = spec_perft d (abs p)
+   where spec_perft (Spec/Rules.v) is the number of sequences of d moves each legal under the rules — by C01
+   (legal_moves is a permutation of the rules' legal moves), makemove's refinement of apply_move, and the closure of the
+   domain under legal moves (LcStep).  Agreement with the published tables is a computation of the C++ and of
+   spec_perft, checked by the correspondence (tools/perft_tables.py).  Statements only. *)
 From Coq Require Import NArith List Bool.
-From LC Require Import Bits Types BitboardModel MoveModel ZobristModel PositionModel MovegenModel MakeModel GameModel GameFacts.
+From LC Require Import Bits Types BitboardModel MoveModel ZobristModel PositionModel MovegenModel MakeModel GameModel GameFacts Spec.Rules Refine.Abs Refine.MakeAbs PerftExact LegalFinal.
 Import ListNotations.
 Local Open Scope N_scope.
 
@@ -18,4 +20,13 @@ Theorem C04_recurrence : forall K d p,
   fst (perft K (S d) p) = fold_right (fun m s => fst (perft K d (makemove K p m)) + s) 0 (legal_moves p).
 Proof. exact perft_recurrence. Qed.
 
+Theorem C04_perft_counts_rule_sequences : forall K dfrc d p, wf p = true -> rooks_ok p -> legal_consistent dfrc (abs p) = true ->
+  fst (perft K d p) = spec_perft d (abs p).
+Proof. exact perft_counts_rule_sequences. Qed.
+Theorem C04_spec_perft_zero : forall s, spec_perft 0 s = 1.
+Proof. exact spec_perft_zero. Qed.
+Theorem C04_spec_perft_recurrence : forall d s, spec_perft (S d) s = fold_right (fun m acc => spec_perft d (apply_move s m) + acc) 0 (spec_moves s).
+Proof. exact spec_perft_recurrence. Qed.
+
+Print Assumptions C04_perft_counts_rule_sequences. Print Assumptions C04_spec_perft_zero. Print Assumptions C04_spec_perft_recurrence.
 Print Assumptions C04_position_unchanged. Print Assumptions C04_depth_zero. Print Assumptions C04_recurrence.
